@@ -230,11 +230,16 @@ func (r *RootExpr) Finalize() {
 	}
 }
 
-// Dup creates a new map from the given expression.
+// Dup creates a new map from the given expression. The values are copied so
+// that changing the values of the copy does not change the values of m.
 func (m MetaExpr) Dup() MetaExpr {
 	d := make(MetaExpr, len(m))
 	for k, v := range m {
-		d[k] = v
+		if v == nil {
+			d[k] = nil
+			continue
+		}
+		d[k] = append(make([]string, 0, len(v)), v...)
 	}
 	return d
 }
